@@ -137,22 +137,33 @@ def classify(stream, case, out):
 _s = Stream('json', 'h_fmt', gen=gen, nontrivial=nontrivial, canon=canon)
 _s.py_judge = judge
 
+def extra(tier, seed, rng, res, broken):
+    """several threads record one field each on ONE span at the same moment: a JSON record emitted inside the span afterwards
+    shows all of them"""
+    from checks import stressgen
+    stressgen.stress_phase('recordshared', tier, res, broken, seed)
+
 PROPERTY = {
     'manifest': {
         'text': "Lean 4 theorems over a model of the JSON formatter (serde_json's escaping and compact rendering, the type mapping of event fields and span fields, parse-merge-reserialise of later record calls as an insertion into a "
                 "key-sorted map, span objects and the event layout for every combination of level/target/flatten_event/current_span/span_list): escape_roundtrip (an independent reader of JSON string bodies recovers every string — "
                 "any code points — from its escaped form), single_line (an escaped string contains no raw control character), merge_last_wins (after any number of record calls the stored object is sorted, has unique keys and "
                 "maps every key to the value recorded last; nothing recorded earlier is lost), spans_root_to_leaf; and the headline: an independent reader of JSON text (null/true/false/numbers/strings with escapes/arrays/objects) defined in Lean reads the rendering of ANY value of the model — any depth — back to exactly that value and the following text (render_roundtrip, by induction on a size bound through the mutually recursive renderer and reader), so every record line, for every configuration, field set and span scope, is ONE object followed by the newline and is the object the formatter was given (record_is_one_json_object; numbers written by the formatter are JSON number tokens; what record stores stays well formed). The model's output is compared BYTE FOR BYTE with the real formatter on hostile Unicode, numeric extremes, "
-                "NaN/inf, Debug/Display values, raw-identifier names and span histories with later records, and every line is parsed by an independent JSON parser that rejects duplicate keys.",
+                "NaN/inf, Debug/Display values, raw-identifier names and span histories with later records, and every line is parsed by an independent JSON parser that rejects duplicate keys. "
+                "Overlapping records on one span: a transition system over on_record's critical sections, parametrised by whether the merge happens in place under the extensions write lock (record_merge_code_fact, extracted from "
+                "fmt_subscriber.rs), any threads, every schedule: the stored fields contain every field of a finished record call (no_recorded_field_lost); with copy / merge / write-back one is lost (lost_record_witness); real threads "
+                "recording on one span together (h_stress, values with a slow Debug) must all appear in the next JSON record.",
         'note': "Trusted: Lean kernel; propext/Classical.choice/Quot.sound; floats cross as opaque decimal tokens (a fixed set whose shortest form is known); byte slices, errors and 128-bit integers are not generated; "
                 "thread id/name, file/line and span-lifecycle records are exercised by C13, not here; reserved key collisions are the property's exclusion. Repaired: F18 (later records lost when a stored key needs escaping).",
         'technique': 'Lean 4 proof (string escaping inverse, sorted-map invariant) of a hand-written model + byte-exact differential run against the real JSON formatter + independent JSON parser as judge',
     },
-    'lean_module': 'TracingModel.Props.C14J',
-    'leanchecker_modules': ['TracingModel.Props.C14'],
+    'lean_module': 'TracingModel.Props.C14A',
+    'leanchecker_modules': ['TracingModel.Props.C14', 'TracingModel.Props.C14J'],
+    'extra_bins': ['h_stress'],
     'namespace': 'C14',
-    'units': [],
-    'required_theorems': ['C14.escape_roundtrip', 'C14.single_line', 'C14.merge_last_wins', 'C14.spans_root_to_leaf', 'C14.insert_sorted', 'C14.render_roundtrip', 'C14.record_is_one_json_object', 'C14.roundtrip', 'C14.event_field_present', 'C14.recordInto_wf', 'C14.eventObj_wf'],
+    'units': ['AtomicCounts'],
+    'required_theorems': ['C14.escape_roundtrip', 'C14.single_line', 'C14.merge_last_wins', 'C14.spans_root_to_leaf', 'C14.insert_sorted', 'C14.render_roundtrip', 'C14.record_is_one_json_object', 'C14.roundtrip', 'C14.event_field_present', 'C14.recordInto_wf', 'C14.eventObj_wf',
+                          'C14.record_merge_code_fact', 'C14.no_recorded_field_lost', 'C14.lost_record_witness'],
     'streams': [_s],
     'rule': 'one case = the JSON formatter with random level/target/flatten_event/current_span/span_list and 3-14 ops: events with 0-4 fields whose names and string values draw from quotes, backslashes, every kind of control '
             'character, DEL, U+2028/9, astral code points; i64/u64 extremes; floats incl. NaN/inf; bools; Debug values; raw-identifier names; spans (hostile names) declared with 0-4 fields, some empty, entered, and recorded into '
